@@ -72,6 +72,13 @@ type silent struct{}
 
 func (silent) Printf(string, ...interface{}) {}
 
+// countLogger discards the messages and counts them: ResolveFace logs on its
+// slow path when it falls through to the script / arbitrary steps, never on a
+// rune cache hit, which makes cache hits observable for those answers.
+type countLogger struct{ n int }
+
+func (c *countLogger) Printf(string, ...interface{}) { c.n++ }
+
 // fileInfo caches what the harness knows about a pool file.
 type fileInfo struct {
 	fonts []*font.Font
@@ -180,6 +187,7 @@ type world struct {
 	st       *stats
 	hasSys   bool
 	deep     bool // run the compositional list law as well
+	log      *countLogger
 }
 
 type answered struct {
@@ -549,7 +557,8 @@ func (w *world) lruKey(r rune) string {
 // run executes the history; the first failed law stops it.
 func runHistory(h History, deep bool) (st *stats, f *finding, err error) {
 	st = &stats{cover: map[string]int{}}
-	w := &world{hist: fontscan.NewFontMap(silent{}), ops: h.Ops, faces: map[int]*font.Face{}, byLoc: map[fontscan.Location]int{}, size: 4096, st: st, deep: deep}
+	lg := &countLogger{}
+	w := &world{hist: fontscan.NewFontMap(lg), log: lg, ops: h.Ops, faces: map[int]*font.Face{}, byLoc: map[fontscan.Location]int{}, size: 4096, st: st, deep: deep}
 	for i, op := range h.Ops {
 		st.c("op " + op.K)
 		var fnd *finding
@@ -655,7 +664,9 @@ func (w *world) step(i int, op Op) (*finding, error) {
 
 func (w *world) resolve(at int, r rune) (*finding, error) {
 	st := w.st
+	logged := w.log.n
 	got := w.hist.ResolveFace(r)
+	logged = w.log.n - logged
 	if len(w.ins) == 0 {
 		st.c("ResolveFace on an empty map (not judged)")
 		if got != nil {
@@ -716,6 +727,19 @@ func (w *world) resolve(at int, r rune) (*finding, error) {
 		}
 	}
 	st.c("answer tier: " + tier)
+	if tier == "script" || tier == "arbitrary" {
+		// the slow path logs before these steps; silence means the rune cache answered
+		obs := "miss"
+		if logged == 0 {
+			obs = "hit"
+		}
+		st.c(fmt.Sprintf("observed through the logger (tier script/arbitrary), cache size %d: cache %s", w.size, obs))
+		if obs == cacheWord {
+			st.c("LRU model agrees with the observed hit/miss")
+		} else {
+			st.c("LRU model DISAGREES with the observed hit/miss (evidence only)")
+		}
+	}
 	st.c(fmt.Sprintf("database size %s", bucket(len(w.ins))))
 	if w.hasSys {
 		st.c("ResolveFace with system (not user provided) footprints in the database")
